@@ -42,8 +42,9 @@
 //!          dictionary loaded again) on the same text and seed
 //!
 //! Third stream (first field 3): the same with arbitrary probabilities, exact line only:
-//! input  = (3 (1 1 1 1) 0 0 itab rtab seed () trigrams words info (pw pc)), pw = the corruption probability
-//!          (0 < pw <= 1), pc = char_edit_prob, both f64 values (0 m e); output = (run1 run2)
+//! input  = (3 (1 1 1 1) fd 0 itab rtab seed () trigrams words info (pw pc)), pw = the corruption probability
+//!          (0 < pw <= 1), pc = char_edit_prob, both f64 values (0 m e); fd = allow_full_delete (a word that
+//!          became empty is dropped from the text); output = (run1 run2)
 use rand::SeedableRng;
 use rand_chacha::ChaCha8Rng;
 use std::borrow::Cow;
@@ -595,6 +596,8 @@ struct E2e {
     /// third stream: Some((corruption probability, char_edit_prob)); None = second stream
     /// (probability 1.0, char_edit_prob 0.0 / 1.0 by `charmode`)
     probs: Option<(f64, f64)>,
+    /// allow_full_delete (third stream only; the second stream keeps it off: "no word lost")
+    fd: bool,
 }
 
 impl E2e {
@@ -662,7 +665,7 @@ fn e2e_info(e: &E2e, _cache: &mut Cache) -> Val {
 
 fn e2e_to_val(e: &E2e, cache: &mut Cache) -> Val {
     let (itab, rtab) = e2e_tables(&e.trigrams);
-    let cfg = Cfg { g: false, kinds: [true; 4], fd: false, pm: 0, itab, rtab, seed: e.seed };
+    let cfg = Cfg { g: false, kinds: [true; 4], fd: e.fd, pm: 0, itab, rtab, seed: e.seed };
     let mut l = match cfg_to_val(&cfg, vec![], vec![], false) {
         Val::L(mut l) => {
             l.truncate(8);
@@ -730,9 +733,12 @@ fn val_e2e(v: &Val) -> Option<E2e> {
         if !(pw > 0.0 && pw <= 1.0) || l[11].as_l()?.len() != 2 {
             return None;
         }
-        return Some(E2e { trigrams, words, seed, charmode: false, probs: Some((pw, pc)) });
+        return Some(E2e { trigrams, words, seed, charmode: false, probs: Some((pw, pc)), fd: l[2].as_bool()? });
     }
-    Some(E2e { trigrams, words, seed, charmode: l[11].as_bool()?, probs: None })
+    if l[2].as_bool()? {
+        return None;
+    }
+    Some(E2e { trigrams, words, seed, charmode: l[11].as_bool()?, probs: None, fd: false })
 }
 
 fn run_e2e(e: &E2e) -> (Val, Vec<String>) {
@@ -752,12 +758,12 @@ fn run_e2e(e: &E2e) -> (Val, Vec<String>) {
     // same text, same seed
     let mut outs = vec![];
     for run in 0..2 {
-        let (seed, pw, pc, p2, text) = (e.seed, e.pw(), e.pc(), path.clone(), text.clone());
+        let (seed, pw, pc, fd, p2, text) = (e.seed, e.pw(), e.pc(), e.fd, path.clone(), text.clone());
         let res = catch_unwind(AssertUnwindSafe(move || {
             let f = preprocessing(PreprocessingFnConfig::SpellingCorruption(
                 Part::Input,
                 pw,
-                false,
+                fd,
                 SpellingCorruptionMode::Artificial(pc, 2.0, Some(p2.into())),
             ));
             let info = TextDataInfo { seed, ..Default::default() };
@@ -766,6 +772,10 @@ fn run_e2e(e: &E2e) -> (Val, Vec<String>) {
         outs.push(match res {
             Ok(Some(t)) => {
                 let ws: Vec<&str> = if t.is_empty() { vec![] } else { t.split(' ').collect() };
+                if run == 0 && ws.len() < e.words.len() {
+                    // a word was deleted completely and dropped from the text (allow_full_delete)
+                    tags.push("e2e3-dropped".into());
+                }
                 if run == 0 && ws.iter().zip(e.words.iter()).any(|(a, b)| a != b) {
                     tags.push("e2e-changed".into());
                     if e.probs.is_some() && ws.iter().zip(e.words.iter()).any(|(a, b)| a == b) && e.words.len() > 1 {
@@ -854,7 +864,8 @@ fn gen_e2e(rng: &mut Rng) -> E2e {
     } else {
         None
     };
-    E2e { trigrams, words, seed: rng.below(1 << 30) as u64, charmode: rng.chance(2, 3), probs }
+    let fd = probs.is_some() && rng.chance(1, 2);
+    E2e { trigrams, words, seed: rng.below(1 << 30) as u64, charmode: rng.chance(2, 3), probs, fd }
 }
 
 // ------------------------------------------------------------------ generators
